@@ -2033,12 +2033,12 @@ func BuildRRCInactiveTransitionReport() (pdu ngapType.NGAPPDU) {
 	userLocationInformation.UserLocationInformationNR = new(ngapType.UserLocationInformationNR)
 
 	userLocationInformationNR := userLocationInformation.UserLocationInformationNR
-	userLocationInformationNR.NRCGI.PLMNIdentity.Value = aper.OctetString("\x0f\x01\x22")
+	userLocationInformationNR.NRCGI.PLMNIdentity.Value = TestPlmn.Value
 	userLocationInformationNR.NRCGI.NRCellIdentity.Value = aper.BitString{
 		Bytes:     []byte{0x00, 0x00, 0x00, 0x00, 0x10},
 		BitLength: 36,
 	}
-	userLocationInformationNR.TAI.PLMNIdentity.Value = aper.OctetString("\x0f\x01\x22")
+	userLocationInformationNR.TAI.PLMNIdentity.Value = TestPlmn.Value
 	userLocationInformationNR.TAI.TAC.Value = aper.OctetString("\x0f\x01\x22")
 	//optional
 	userLocationInformationNR.TimeStamp = new(ngapType.TimeStamp)
@@ -2055,8 +2055,8 @@ func BuildRRCInactiveTransitionReport() (pdu ngapType.NGAPPDU) {
 			Bytes:     []byte{0x02, 0x42, 0x07, 0x30},
 			BitLength: 28,
 		}
-		userLocationInformationEUTRA.EUTRACGI.PLMNIdentity.Value = aper.OctetString("\x0f\x01\x22")
-		userLocationInformationEUTRA.TAI.PLMNIdentity.Value = aper.OctetString("\x0f\x01\x22")
+		userLocationInformationEUTRA.EUTRACGI.PLMNIdentity.Value = TestPlmn.Value
+		userLocationInformationEUTRA.TAI.PLMNIdentity.Value = TestPlmn.Value
 		userLocationInformationEUTRA.TAI.TAC.Value = aper.OctetString("\x0f\x01\x22")
 
 		//optional
@@ -2120,10 +2120,10 @@ func BuildHandoverNotify(amfUeNgapID int64, ranUeNgapID int64) (pdu ngapType.NGA
 	userLocationInformation.UserLocationInformationEUTRA = new(ngapType.UserLocationInformationEUTRA)
 
 	userLocationInformationEUTRA := userLocationInformation.UserLocationInformationEUTRA
-	userLocationInformationEUTRA.TAI.PLMNIdentity.Value = aper.OctetString("\x30\x33\x99")
+	userLocationInformationEUTRA.TAI.PLMNIdentity.Value = TestPlmn.Value
 	userLocationInformationEUTRA.TAI.TAC.Value = aper.OctetString("\x30\x33\x99")
 
-	userLocationInformationEUTRA.EUTRACGI.PLMNIdentity.Value = aper.OctetString("\x30\x33\x99")
+	userLocationInformationEUTRA.EUTRACGI.PLMNIdentity.Value = TestPlmn.Value
 	userLocationInformationEUTRA.EUTRACGI.EUTRACellIdentity.Value = aper.BitString{
 		Bytes:     []byte{0x24, 0x16, 0x08, 0xFF},
 		BitLength: 28,
@@ -2315,7 +2315,7 @@ func BuildRanConfigurationUpdate() (pdu ngapType.NGAPPDU) {
 	broadcastPLMNList := &supportedTAItem.BroadcastPLMNList
 	// BroadcastPLMNItem in BroadcastPLMNList
 	broadcastPLMNLItem := ngapType.BroadcastPLMNItem{}
-	broadcastPLMNLItem.PLMNIdentity.Value = aper.OctetString("\x00\x1D\x5C")
+	broadcastPLMNLItem.PLMNIdentity.Value = TestPlmn.Value
 
 	sliceSupportList := &broadcastPLMNLItem.TAISliceSupportList
 	// SlicesupportItem in SliceSupportList
@@ -2678,13 +2678,13 @@ func BuildLocationReport() (pdu ngapType.NGAPPDU) {
 	userLocationInformation.UserLocationInformationEUTRA = new(ngapType.UserLocationInformationEUTRA)
 
 	userLocationInformationEUTRA := userLocationInformation.UserLocationInformationEUTRA
-	userLocationInformationEUTRA.EUTRACGI.PLMNIdentity.Value = aper.OctetString("\x53\x54\x55")
+	userLocationInformationEUTRA.EUTRACGI.PLMNIdentity.Value = TestPlmn.Value
 	userLocationInformationEUTRA.EUTRACGI.EUTRACellIdentity.Value = aper.BitString{
 		Bytes:     []byte{0x10, 0x11, 0x12, 0x13},
 		BitLength: 28,
 	}
 
-	userLocationInformationEUTRA.TAI.PLMNIdentity.Value = aper.OctetString("\x53\x54\x55")
+	userLocationInformationEUTRA.TAI.PLMNIdentity.Value = TestPlmn.Value
 	userLocationInformationEUTRA.TAI.TAC.Value = aper.OctetString("\x53\x54\x55")
 
 	locationReportIEs.List = append(locationReportIEs.List, ie)
@@ -2724,7 +2724,7 @@ func BuildLocationReport() (pdu ngapType.NGAPPDU) {
 	AOITAIList := areaOfInterestItem.AreaOfInterest.AreaOfInterestTAIList
 
 	areaOfInterestTAIItem := ngapType.AreaOfInterestTAIItem{}
-	areaOfInterestTAIItem.TAI.PLMNIdentity.Value = aper.OctetString("\x53\x54\x55")
+	areaOfInterestTAIItem.TAI.PLMNIdentity.Value = TestPlmn.Value
 	areaOfInterestTAIItem.TAI.TAC.Value = aper.OctetString("\x53\x54\x55")
 	AOITAIList.List = append(AOITAIList.List, areaOfInterestTAIItem)
 
@@ -2734,7 +2734,7 @@ func BuildLocationReport() (pdu ngapType.NGAPPDU) {
 	areaOfInterestCellItem := ngapType.AreaOfInterestCellItem{}
 	areaOfInterestCellItem.NGRANCGI.Present = ngapType.NGRANCGIPresentEUTRACGI
 	areaOfInterestCellItem.NGRANCGI.EUTRACGI = new(ngapType.EUTRACGI)
-	areaOfInterestCellItem.NGRANCGI.EUTRACGI.PLMNIdentity.Value = aper.OctetString("\x53\x54\x55")
+	areaOfInterestCellItem.NGRANCGI.EUTRACGI.PLMNIdentity.Value = TestPlmn.Value
 	areaOfInterestCellItem.NGRANCGI.EUTRACGI.EUTRACellIdentity.Value = aper.BitString{
 		Bytes:     []byte{0x10, 0x11, 0x12, 0x13},
 		BitLength: 28,
